@@ -5,6 +5,12 @@ add("C20", "exploration",
     "Trusted: the brute-force definitions in mc/checks/c20.py; float tolerance 1e-9 (1e-7 after exponentiation); undefined cases (zero variance) are counted and not judged.",
     "DESIGN.md §5 C20")
 
+add("C06", "exploration",
+    "exhaustive enumeration of the whole tick domain (1,774,545 ticks) with integer / 400-bit fixed-point oracles",
+    "get_sqrt_ratio_at_tick is compared with the closed form on every tick, strict monotonicity and boundary constants are checked on every tick, and sqrt_price_x96_to_tick is evaluated on 7 inputs per tick (on, just below, just above, quartiles, just below the next boundary) with the expected floor decided by integer comparison; price<->tick helpers and nearest_usable_tick run over all decimals pairs/orientations/spacings on a boundary-rich subset (quick) or every tick (thorough). Complete for the two core conversions; the helper grid is complete in the thorough tier.",
+    "Trusted: the 400-bit fixed-point closed form (cross-checked per chunk against an independent power), Python integers. The 35-digit Decimal context of the library is left untouched.",
+    "DESIGN.md §5 C06")
+
 _PENDING = "check not built yet in this round (planned: bounded exhaustive exploration, see DESIGN.md §5); listed here until its check is registered"
 for _i in range(1, 21):
     _p = f"C{_i:02d}"
